@@ -651,6 +651,28 @@ pub fn drive_hdr(seed: u64, tier: &str, out: &mut Out) {
             }
         }
         out.emit(json!({"ev": "Tables", "rows": rows, "mime": pmtiles2::MIME_TYPE}));
+        // documented defaults of a new archive and of Header::default(), and the small Directory / Entry API
+        let pm = pmtiles2::PMTiles::new(pmtiles2::TileType::Png, pmtiles2::Compression::Brotli);
+        let hd = Header::default();
+        let mut hb = Vec::new();
+        let _ = hd.to_writer(&mut hb);
+        let mut apis = Vec::new();
+        for n in [0usize, 1, 5] {
+            let es = gen_valid_dir(&mut rng, n, false);
+            let d = Directory::from(es.clone());
+            let iter: Vec<Entry> = (&d).into_iter().copied().collect();
+            let ranges: Vec<Value> = es.iter().map(|e| { let r = e.tile_id_range(); json!([limbs(r.start), limbs(r.end)]) }).collect();
+            let leafs: Vec<bool> = es.iter().map(Entry::is_leaf_dir_entry).collect();
+            apis.push(json!({"entries": entries_json(&es), "len": d.len(), "is_empty": d.is_empty(), "iter": entries_json(&iter),
+                             "first": if n > 0 { entries_json(&[d[0]]) } else { json!([]) }, "ranges": ranges, "leafs": leafs,
+                             "back": entries_json(&Vec::<Entry>::from(d))}));
+        }
+        let coords_zero = [pm.min_longitude, pm.min_latitude, pm.max_longitude, pm.max_latitude, pm.center_longitude, pm.center_latitude].iter().all(|c| *c == 0.0);
+        out.emit(json!({"ev": "Defaults",
+            "new": {"ic": comp_code(pm.internal_compression), "tc": comp_code(pm.tile_compression), "tt": tt_code(pm.tile_type),
+                    "zooms": [pm.min_zoom, pm.max_zoom, pm.center_zoom], "n": pm.num_tiles(), "meta_empty": pm.meta_data.is_empty(),
+                    "coords_zero": coords_zero},
+            "header_default": bytes_json(&hb), "apis": apis}));
     }
     let n_rand = if tier == "thorough" { 6000 } else { 600 };
     // ---- bytes -> header -> bytes
